@@ -85,6 +85,9 @@ impl<'a> Rd<'a> {
     }
 }
 
+/// items taken from one multishot stream at most (then it is dropped and the program goes on)
+const MAX_ITEMS: u64 = 48;
+
 fn fd_ok(s: &S) -> bool {
     use std::os::fd::AsRawFd;
     let fd = s.as_raw_fd();
@@ -531,8 +534,8 @@ async fn reader(ctx: Rc<Ctx>, name: &'static str, s: Rc<S>, owned: bool, borrowe
             let (op, draining) = if i < ops.len() { (&ops[i], false) } else { (&drain, true) };
             i += 1;
             guard += 1;
-            if guard > 4096 {
-                ctx.err("reader exceeded 4096 receive operations".into());
+            if guard > 4096 || log.over() {
+                ctx.err("reader exceeded the operation / event limit".into());
                 break;
             }
             let id = log.op_id();
@@ -646,20 +649,29 @@ async fn reader(ctx: Rc<Ctx>, name: &'static str, s: Rc<S>, owned: bool, borrowe
                     let mut q: &S = r.s();
                     let mut taken = 0u64;
                     let mut ended = false;
+                    let mut emptyitem = false;
                     macro_rules! consume {
                         ($st:expr, $data:expr, $extra:expr) => {{
                             let mut st = std::pin::pin!($st);
                             let mut nobufs = 0u32;
-                            while op.it == 0 || taken < op.it {
+                            while (op.it == 0 || taken < op.it) && !log.over() {
                                 match st.next().await {
                                     Some(Ok(item)) => {
                                         let data: &[u8] = $data(&item);
                                         let runs = dec.decode(data);
                                         let ex: Value = $extra(&item);
+                                        let empty = data.is_empty();
                                         log.ev(merge(merge(json!({"e": "item", "id": id, "op": op.k, "peer": name, "task": "r", "dir": d}), ex),
                                                      json!({"res": "ok", "k": data.len(), "runs": runs_json(&runs), "len": data.len()})));
                                         taken += 1;
                                         drop(item);
+                                        if empty || taken >= MAX_ITEMS {
+                                            // an item without payload: a stream of ancillary results never ends by
+                                            // itself, the end of the byte stream shows as empty items. Stop taking
+                                            // items; whether this is the end is decided by the next plain receive.
+                                            emptyitem = empty;
+                                            break;
+                                        }
                                     }
                                     Some(Err(e)) => {
                                         let unsup = e.kind() == std::io::ErrorKind::Unsupported;
@@ -696,7 +708,8 @@ async fn reader(ctx: Rc<Ctx>, name: &'static str, s: Rc<S>, owned: bool, borrowe
                     if ended {
                         eof = true;
                     } else {
-                        log.ev(json!({"e": "drop", "id": id, "op": op.k, "peer": name, "task": "r", "dir": d, "taken": taken}));
+                        log.ev(json!({"e": "drop", "id": id, "op": op.k, "peer": name, "task": "r", "dir": d, "taken": taken,
+                                      "emptyitem": emptyitem}));
                     }
                 }
                 other => {
